@@ -6,8 +6,8 @@ import vlib
 
 META = {
     "category": "model_checking",
-    "text": "(Round 5: the typed views of a record section - limit_to, limit_to_in, into_records over 15 record-data types, their clones, unwrap and next_section - are a view component of the MsgReader cursor machine (actions Limit/Unwrap, cursors opened on any section, invariants ViewIdempotent/ViewFilters/DataErrorGoesOn) and a `typed` component of the projection, walked directly, through a clone and through clone-per-step; records of classes CH/HS/NONE/ANY and RDATA errors inside sections are part of the enumerated messages and the recorder; header bits, records read at an offset, the OPT record and converted/flattened/rebuilt records are observed by every public route.) (Limit-shape names at the 253..257-octet boundary in every section and records of 23 types with hostile inner structure are part of the enumerated messages and of the recorder.) Wire.tla transcribes the wire format (header, questions, records with the RDLENGTH-must-fit rule, RFC 1035 4.1.4 name compression, skip vs parse, the RDATA layouts that embed names, OPT TLVs) and the read-side results derived from it; MsgReader.tla is the section-cursor machine of the read API. TLC checks termination of name parsing (measure), validity of every returned name, skip/parse position agreement, the CNAME bound and fuse/position/idempotence invariants over all call orders. Every enumerated message (header shapes x boundary chunks, ~55k quick) and every call order up to 4-5 calls on 7 hostile/well-formed messages plus 3 mixed-class ones (by two routes: Message<&[u8]> with copied cursors, &Message<[u8]> via AsRef with cloned cursors) is replayed into Message/QuestionSection/RecordSection (full read battery, twice, plus XfrResponseInterpreter and Label::iter_slice under a watchdog); recorded batteries on library-built, mutated and random messages are validated by TLC.",
-    "note": "Trusted: TLC, the transcription in Wire.tla, the harness executor. RDATA of types other than NS/CNAME/PTR/MX/SOA/OPT/A/AAAA/private-use is opaque to the spec: for those only 'value or error, no panic, same twice' is checked on the implementation side. Error classes are not compared. Messages above the cap (160 octets in traces) only get the totality clause. Reads outside the buffer that do not panic and unsafe blocks are not judged. Four open known findings: canonical_name u16 overflow at ANCOUNT=0xFFFF, Label::iter_slice self-pointer hang and pointer-loop unbounded iteration, XFR interpreter unreachable!().",
+    "text": "(Round 7: the two-message read operations are part of the specification - MsgPair.tla: Message::is_answer both ways, QuestionSection ==, first_question / sole_question compared, RequestMessage / RequestMessageMulti::new + is_answer, MessageBuilder::start_answer / start_error from a hostile message by five targets and the reply held against either message, copy_records from a hostile source into a reply started for the other message, the transfer interpreter fed both - as total functions of a PAIR of octet strings; TLC checks their laws over ~10k enumerated pairs (every prefix, one-field mutants, hostile x hostile) which are replayed by every octets route, and the recorder logs pair events (a message of the run and a partner cut off / mutated / started by the library / unrelated) that Trace_MsgReader judges by PairProj.) (Round 5: the typed views of a record section - limit_to, limit_to_in, into_records over 15 record-data types, their clones, unwrap and next_section - are a view component of the MsgReader cursor machine (actions Limit/Unwrap, cursors opened on any section, invariants ViewIdempotent/ViewFilters/DataErrorGoesOn) and a `typed` component of the projection, walked directly, through a clone and through clone-per-step; records of classes CH/HS/NONE/ANY and RDATA errors inside sections are part of the enumerated messages and the recorder; header bits, records read at an offset, the OPT record and converted/flattened/rebuilt records are observed by every public route.) (Limit-shape names at the 253..257-octet boundary in every section and records of 23 types with hostile inner structure are part of the enumerated messages and of the recorder.) Wire.tla transcribes the wire format (header, questions, records with the RDLENGTH-must-fit rule, RFC 1035 4.1.4 name compression, skip vs parse, the RDATA layouts that embed names, OPT TLVs) and the read-side results derived from it; MsgReader.tla is the section-cursor machine of the read API. TLC checks termination of name parsing (measure), validity of every returned name, skip/parse position agreement, the CNAME bound and fuse/position/idempotence invariants over all call orders. Every enumerated message (header shapes x boundary chunks, ~55k quick) and every call order up to 4-5 calls on 7 hostile/well-formed messages plus 3 mixed-class ones (by two routes: Message<&[u8]> with copied cursors, &Message<[u8]> via AsRef with cloned cursors) is replayed into Message/QuestionSection/RecordSection (full read battery, twice, plus XfrResponseInterpreter and Label::iter_slice under a watchdog); recorded batteries on library-built, mutated and random messages are validated by TLC.",
+    "note": "Pairs: messages of at most 160 octets in traces; a reply started on a compressing target is compared ignoring letter case; what copy_records copies is compared by counts (read back), not record by record. Trusted: TLC, the transcription in Wire.tla, the harness executor. RDATA of types other than NS/CNAME/PTR/MX/SOA/OPT/A/AAAA/private-use is opaque to the spec: for those only 'value or error, no panic, same twice' is checked on the implementation side. Error classes are not compared. Messages above the cap (160 octets in traces) only get the totality clause. Reads outside the buffer that do not panic and unsafe blocks are not judged. Four open known findings: canonical_name u16 overflow at ANCOUNT=0xFFFF, Label::iter_slice self-pointer hang and pointer-loop unbounded iteration, XFR interpreter unreachable!().",
     "technique": "TLA+ specs (Wire.tla, MsgReader.tla) + TLC exhaustive over enumerated messages and call orders; spec->impl case replay; impl->spec trace validation",
     "design_ref": "DESIGN.md §4 C01",
 }
@@ -153,6 +153,61 @@ def _vacuity_orders(path):
                              % (sorted(need_ops - ops), sorted(need_k - kinds)))
 
 
+def _vacuity_pairs(path):
+    """The enumerated pairs must reach every outcome of every two-message
+    operation, and the regression class 'partner cut off inside its question
+    section while header fields still match' in both roles."""
+    seen = set()
+    with open(path) as f:
+        for line in f:
+            c = json.loads(line)
+            a, b, e = c["in"]["a"], c["in"]["b"], c["exp"]
+            if True in e["short"]:
+                seen.add("short")
+                continue
+            for i, v in enumerate(e["ans"]):
+                seen.add("ans%d:%s" % (i, v))
+            seen.add("qeq:%s" % e["qeq"])
+            seen.add("first:%d" % e["first"])
+            seen.add("sole:%d" % e["sole"])
+            for k in ("req", "reqm"):
+                for v in e[k]:
+                    seen.add("%s:%d" % (k, v))
+            for st in e["start"]:
+                seen.add("start.answers:%s" % st["answers"])
+                if len(st["items"]) >= 2:
+                    seen.add("start:two-questions")
+                if st["items"] and st["hdr"][4] == len(st["items"]):
+                    seen.add("start:questions-pushed")
+            for v in e["cross"]:
+                seen.add("cross:%s" % v)
+            for v in e["copy"]:
+                seen.add("copy:%d" % v[0])
+                if v[0] == 1 and sum(v[3:]) >= 3:
+                    seen.add("copy:records-in-every-section")
+            # one message is the other cut off at or behind the header, its
+            # header fields (ID, QDCOUNT) those of a response that answers itself
+            for x, y, role in ((a, b, "req"), (b, a, "resp")):
+                if 12 <= len(y) < len(x) and x[:len(y)] == y and x[2] >= 128 and x[4:6] != [0, 0]:
+                    whole = e["ans"][0] if role == "req" else e["ans"][1]
+                    if not whole:
+                        seen.add("cut-partner-as-" + role)
+                    if len(y) == 12:
+                        seen.add("cut-partner-header-only")
+            if a != b and e["ans"][0] and e["ans"][1]:
+                seen.add("ans-both-ways-different-octets")
+    need = {"short", "ans0:True", "ans0:False", "ans1:True", "ans1:False", "qeq:True", "qeq:False",
+            "first:-1", "first:0", "first:1", "sole:-1", "sole:0", "sole:1",
+            "req:-1", "req:0", "req:1", "reqm:-1", "reqm:0", "reqm:1",
+            "start.answers:True", "start.answers:False", "start:two-questions", "start:questions-pushed",
+            "cross:True", "cross:False", "copy:0", "copy:1", "copy:records-in-every-section",
+            "cut-partner-as-req", "cut-partner-as-resp", "cut-partner-header-only",
+            "ans-both-ways-different-octets"}
+    missing = sorted(need - seen)
+    if missing:
+        raise vlib.ToolError("vacuity: enumerated pairs never reach %s" % missing)
+
+
 def run(ctx):
     thorough = ctx.tier == "thorough"
     sfx = "_thorough" if thorough else ""
@@ -167,6 +222,24 @@ def run(ctx):
     ctx.coverage_actions["MC_Wire:Phase1,Phase2,NWStep"] = (mc.distinct, mc.generated)
     ctx.coverage_actions["MC_MsgReader:NextItem,NextSection,Fork,Restore,Limit,Unwrap,CanonName,OptCall,FirstQ"] = (
         mc2.distinct, mc2.generated)
+
+    # 1b/2b. pairs of messages (MsgPair.tla): the laws of the two-message
+    # operations over every enumerated pair, and S->I: every pair with its
+    # pair projection (one TLC run decides the laws and emits the cases)
+    pairs = os.path.join(ctx.work, "cases-pairs.ndjson")
+    mcp = ctx.tlc("MC_MsgPair", "MC_MsgPair" + sfx, workers=8, label="mc-gen-pairs", coverage=False,
+                  cases_to=pairs, count=False)
+    ctx.require_ok(mcp, "MC_MsgPair")
+    ctx.coverage_actions["MC_MsgPair:Phase1,Phase2"] = (mcp.distinct, mcp.generated)
+    if mcp.ncases < 5000:
+        raise vlib.ToolError("pair generator produced too few cases (%d)" % mcp.ncases)
+    _vacuity_pairs(pairs)
+    phead = os.path.join(ctx.work, "head-pairs.ndjson")
+    _head(pairs, phead, 40)
+    rc, out, err, _ = ctx.run_bin("replay_wire", ["pair", "--selftest-perturb", "--open-devs",
+                                                  ",".join(sorted(ctx.open_devs))], stdin_path=phead)
+    ctx.selftest("perturbed expectation is reported by replay_wire pair", "FAIL " in out)
+    ctx.replay_cases("replay_wire", pairs, args=["pair"], label="wire-pairs")
 
     # 2. S->I: every enumerated message with its projection
     cases = os.path.join(ctx.work, "cases-proj.ndjson")
@@ -216,6 +289,27 @@ def run(ctx):
             for d in w.get("devs", []):
                 ctx.known(d, {"trace": os.path.basename(tr)})
         if i == 0:
+            # recorded pairs: enough of them, answering and not, and the
+            # corrupted verdict of one is rejected (a short trace of pair
+            # events only)
+            pev = [json.loads(l) for l in open(tr) if '"ev":"pair"' in l.replace(" ", "")]
+            full = [o for o in pev if "ans" in o["proj"]]
+            n_cut = sum(1 for o in full for x, y in ((o["a"], o["b"]), (o["b"], o["a"]))
+                        if 12 <= len(y) < len(x) and x[:len(y)] == y and x[2] >= 128)
+            if len(full) < 50 or not any(True in o["proj"]["ans"] for o in full) or n_cut < 5 \
+                    or not any(o["proj"]["copy"][0][0] == 1 for o in full):
+                raise vlib.ToolError("vacuity: recorded pair events too few or one-sided (%d full, %d cut partners)"
+                                     % (len(full), n_cut))
+            ctx.stages[-1]["pair_events"] = len(pev)
+            ctx.stages[-1]["pair_events_cut_partner_of_response"] = n_cut
+            badp = os.path.join(ctx.work, "trace-bad-pair.ndjson")
+            sel = full[:6]
+            k = next((j for j, o in enumerate(sel) if not o["proj"]["ans"][0]), 0)
+            sel[k]["proj"]["ans"][0] = not sel[k]["proj"]["ans"][0]
+            open(badp, "w").write("\n".join(json.dumps(o) for o in sel) + "\n")
+            okp, _, _ = ctx.validate_trace("Trace_MsgReader", "Trace_MsgReader", badp,
+                                           label="trace-selftest-pair", env=env)
+            ctx.selftest("a pair event with a changed is_answer verdict is rejected by Trace_MsgReader", not okp)
             bad = os.path.join(ctx.work, "trace-bad.ndjson")
             lines = open(tr).read().splitlines()
             for j, l in enumerate(lines):
@@ -256,4 +350,5 @@ def run(ctx):
     ctx.assume("a name embedded in RDATA is read within the RDATA's limit (as the sub-parser does); RFC 1035 is silent on pointer targets that run past it")
     ctx.assume("Label::iter_slice is executed under a watchdog; once two real hangs have been observed, inputs for which the spec predicts a hang under the open deviation are not executed")
     ctx.assume("messages larger than 160 octets (traces) are checked for totality and repeatability only")
+    ctx.assume("a compressing builder target may hand back a question name in the letter case of an earlier name it was compressed into: replies started on StaticCompressor / TreeCompressor are compared with the specification ignoring case")
     ctx.assume("a typed view's element of a type whose layout the spec does not know is 'value or error' (the same outcome in every view that reads it by the same layout); the position of a cursor that has returned an error is not compared (a typed iterator does not tell a framing error from an RDATA error)")
